@@ -13,7 +13,7 @@ def main(tier):
     try:
         # ---- the specification itself against MIT Kerberos (string-to-key, checksums, encryption in both directions; no gokrb5 code)
         import mitcross
-        run.extra["krbcrypto_vs_mit"] = mitcross.run_mit_cross(run.seed, 8 if not run.thorough else 80)
+        run.extra["krbcrypto_vs_mit"] = mitcross.spec_stage(run, mitcross.run_mit_cross, run.seed, 8 if not run.thorough else 80)
         rnd = random.Random(run.seed)
         # role B input: per etype, plaintext lengths around every block boundary
         lens = list(range(0, 41)) if not run.thorough else list(range(0, 131))
